@@ -83,9 +83,21 @@ def run_one(m, tier="quick", budget=None):
             line = [x for x in r.stdout.splitlines() if x.startswith("VIOLATION")]
             results[pid] = {"rc": r.returncode, "violation": line[:1], "tail": r.stdout[-300:] if r.returncode not in (0, 1) else "",
                             "err": r.stderr[-500:] if r.returncode not in (0, 1) else ""}
+            if r.returncode == 1 and line and "replay=" in line[0]:
+                # the replay file must reproduce the violation in a fresh process, twice
+                rp = line[0].split("replay=", 1)[1].strip()
+                oks = []
+                for _ in range(2):
+                    rr = subprocess.run([os.path.join(VERIF, "vcheck"), pid, "--replay", rp], env=env,
+                                        capture_output=True, text=True, timeout=600)
+                    oks.append(rr.returncode == 1 and "VIOLATION" in rr.stdout and "different violation class" not in rr.stdout)
+                results[pid]["replay_reproduces"] = all(oks)
         detected = [p for p, v in results.items() if v["rc"] == 1]
-        return dict(m, result="detected" if detected else "MISSED", by=detected, results=results,
-                    wall=round(time.time() - t0, 1))
+        bad_replay = [p for p, v in results.items() if v.get("replay_reproduces") is False]
+        res = "detected" if detected else "MISSED"
+        if bad_replay:
+            res = "REPLAY-FAILS"
+        return dict(m, result=res, by=detected, results=results, wall=round(time.time() - t0, 1))
     finally:
         shutil.rmtree(tmp, ignore_errors=True)
 
